@@ -88,13 +88,14 @@ def addKeep (st : IdxState) (n : Nat) (keep : Bytes) (r : Int) : IdxState :=
             maxBuffered := max st.maxBuffered (st.buffer ++ keep).length }
 
 theorem indexLine_residue (bs : Int) (st : IdxState) (line : Bytes) (b0 : Nat) (r : Int)
-    (h0 : pyGet line 0 = .ok b0) (hb : b0 ≠ 62) (hr : st.rpl = some r) :
+    (h0 : pyGet line 0 = .ok b0) (hb : b0 ≠ 62) (hr : st.rpl = some r) (nm : Str) (hn : st.name = some nm) :
     indexLine bs st line = .ok
       (if (((st.buffer ++ keepOf st.lineEndBytes line).length : Nat) : Int) > bs
         then processSeqBuffer (addKeep st line.length (keepOf st.lineEndBytes line) r)
         else addKeep st line.length (keepOf st.lineEndBytes line) r) := by
   unfold indexLine
-  simp only [h0, hr, bind, Except.bind, pure, Except.pure, hb, if_false, keepOf, addKeep]
+  simp only [h0, hr, hn, Option.isNone_some, Bool.false_eq_true, bind, Except.bind, pure, Except.pure, hb, if_false,
+    keepOf, addKeep]
   by_cases h0 : r = 0 <;> by_cases hl : line.getLast? = some 10 <;>
     simp only [h0, hl, if_true, if_false] <;> split <;> rfl
 
@@ -254,5 +255,607 @@ theorem storeInfo_ok {st : IdxState} {c : Cur} (h : InRec st c) (hd : dHas c.idx
     simp [h'.nextOid, Cur.store, specRegions, castRuns]
   · exact h'.pos
   · rfl
+
+/-! ### one residue line -/
+
+/-- a residue line `l` followed by its terminator `t`, in a record whose header announced `leb` terminator bytes;
+    `t = []` is the unterminated last line of a file. -/
+def ResLine (leb : Int) (l t : Bytes) : Prop :=
+  10 ∉ l ∧ l.head? ≠ some 62 ∧ ((t = [10] ∧ leb = 1) ∨ (t = [13, 10] ∧ leb = 2) ∨ (t = [] ∧ l ≠ []))
+
+theorem keepOf_resLine {leb : Int} {l t : Bytes} (h : ResLine leb l t) : keepOf leb (l ++ t) = l := by
+  obtain ⟨h10, _, ht⟩ := h
+  rcases ht with ⟨rfl, rfl⟩ | ⟨rfl, rfl⟩ | ⟨rfl, hne⟩
+  · have : (l ++ [10]).getLast? = some 10 := List.getLast?_concat
+    simp only [keepOf, this, if_true]
+    exact List.take_left' (by simp)
+  · have : (l ++ [13, 10]).getLast? = some 10 := by
+      rw [show l ++ [13, 10] = (l ++ [13]) ++ [10] by simp]; exact List.getLast?_concat
+    simp only [keepOf, this, if_true]
+    exact List.take_left' (by simp)
+  · have : ¬ l.getLast? = some 10 := by
+      intro hl; exact h10 (List.mem_of_getLast? hl)
+    simp only [keepOf, List.append_nil, this, if_false]
+
+theorem pyGet0_resLine {leb : Int} {l t : Bytes} (h : ResLine leb l t) :
+    ∃ b0, pyGet (l ++ t) 0 = .ok b0 ∧ b0 ≠ 62 := by
+  obtain ⟨_, h62, ht⟩ := h
+  cases l with
+  | cons b bs =>
+    refine ⟨b, by rw [List.cons_append]; exact pyGet_zero_cons _ _, ?_⟩
+    intro hb; apply h62; simp [hb]
+  | nil =>
+    rcases ht with ⟨rfl, _⟩ | ⟨rfl, _⟩ | ⟨_, hne⟩
+    · exact ⟨10, pyGet_zero_cons _ _, by decide⟩
+    · exact ⟨13, pyGet_zero_cons _ _, by decide⟩
+    · exact absurd rfl hne
+
+theorem residue_step (bs : Int) {st : IdxState} {c : Cur} {l t : Bytes} (h : InRec st c) (hl : ResLine c.leb l t) :
+    ∃ st', indexLine bs st (l ++ t) = .ok st' ∧ InRec st' (c.feed l (l ++ t).length) := by
+  obtain ⟨b0, hb0, hne⟩ := pyGet0_resLine hl
+  rw [indexLine_residue bs st (l ++ t) b0 c.rpl hb0 hne h.rpl c.name h.name, h.leb, keepOf_resLine hl]
+  refine ⟨_, rfl, ?_⟩
+  split
+  · exact (h.addKeep _ l).flush
+  · exact h.addKeep _ l
+
+/-- all residue lines of a record, each with its own terminator -/
+theorem residue_fold (bs : Int) (ls : List (Bytes × Bytes)) : ∀ {st : IdxState} {c : Cur}, InRec st c →
+    (∀ lt ∈ ls, ResLine c.leb lt.1 lt.2) →
+    ∃ st', (ls.map (fun lt => lt.1 ++ lt.2)).foldlM (indexLine bs) st = .ok st' ∧
+      InRec st' (ls.foldl (fun c lt => c.feed lt.1 (lt.1 ++ lt.2).length) c) := by
+  induction ls with
+  | nil => intro st c h _; exact ⟨st, rfl, h⟩
+  | cons lt rest ih =>
+    intro st c h hall
+    obtain ⟨st1, e1, h1⟩ := residue_step bs h (hall lt (by simp))
+    have hall' : ∀ lt' ∈ rest, ResLine (c.feed lt.1 (lt.1 ++ lt.2).length).leb lt'.1 lt'.2 :=
+      fun lt' hm => hall lt' (by simp [hm])
+    obtain ⟨st2, e2, h2⟩ := ih h1 hall'
+    refine ⟨st2, ?_, h2⟩
+    simp only [List.map_cons, List.foldlM_cons, e1]
+    exact e2
+
+/-! ### records as laid out in the file -/
+
+/-- one FASTA record as it is laid out in the file -/
+structure Rec where
+  /-- header line after `>` without its terminator (name, optional description) -/
+  hdr : Bytes
+  /-- the line terminator used by this record: LF or CRLF -/
+  le : Bytes
+  /-- residue lines without terminators -/
+  lines : List Bytes
+
+namespace Rec
+def tok (r : Rec) : Bytes := tokOf r.hdr
+def name (r : Rec) : Str := r.tok.map Char.ofNat
+def res (r : Rec) : Bytes := r.lines.flatten
+def hdrLine (r : Rec) : Bytes := 62 :: r.hdr ++ r.le
+def fileLines (r : Rec) : List Bytes := r.hdrLine :: r.lines.map (· ++ r.le)
+def bytes (r : Rec) : Bytes := r.fileLines.flatten
+/-- `residues_per_line`: length of the first non-empty residue line (0 when there is none) -/
+def rplOf (lines : List Bytes) : Int := lines.foldl (fun acc l => if acc = 0 then (l.length : Int) else acc) 0
+def rpl (r : Rec) : Int := rplOf r.lines
+
+structure WF (r : Rec) : Prop where
+  le : (r.le = [10] ∧ r.hdr.getLast? ≠ some 13) ∨ r.le = [13, 10]
+  hdr10 : 10 ∉ r.hdr
+  tok_ne : r.tok ≠ []
+  tok_ascii : ∀ b ∈ r.tok, b < 128
+  lines : ∀ l ∈ r.lines, 10 ∉ l ∧ l.head? ≠ some 62
+end Rec
+
+theorem bytesToStr_ascii (tok : Bytes) (h : ∀ b ∈ tok, b < 128) : bytesToStr tok = .ok (tok.map Char.ofNat) := by
+  have : tok.all (· < 128) = true := by
+    rw [List.all_eq_true]; intro b hb; simpa using h b hb
+  simp [bytesToStr, this]
+
+theorem Rec.WF.le_space {r : Rec} (h : r.WF) : ∀ b ∈ r.le, isBSpace b = true := by
+  rcases h.le with ⟨h, _⟩ | h <;> rw [h] <;> decide
+
+theorem Rec.hdrTok {r : Rec} (h : r.WF) : hdrTokOf r.hdrLine = r.tok := by
+  simp only [hdrTokOf, Rec.hdrLine, List.drop_succ_cons, List.drop_zero]
+  exact tok_append_space r.hdr r.le h.le_space
+
+theorem Rec.WF.hdr_ne {r : Rec} (h : r.WF) : r.hdr ≠ [] := by
+  intro h0; apply h.tok_ne; simp [Rec.tok, tokOf, h0]
+
+theorem Rec.hdr_b2 {r : Rec} (h : r.WF) :
+    ∃ b2, pyGet r.hdrLine (-2) = .ok b2 ∧ (if b2 = 13 then (2 : Int) else 1) = (r.le.length : Nat) := by
+  rcases h.le with ⟨hle, hlast⟩ | hle
+  · rcases List.eq_nil_or_concat r.hdr with h0 | ⟨init, x, hx⟩
+    · exact absurd h0 h.hdr_ne
+    · have hx13 : x ≠ 13 := by
+        intro hx'; apply hlast; rw [hx, hx']; simp
+      refine ⟨x, ?_, by simp [hle, hx13]⟩
+      have : r.hdrLine = (62 :: init) ++ [x, 10] := by simp [Rec.hdrLine, hx, hle]
+      rw [this]; exact pyGet_neg_two _ _ _
+  · refine ⟨13, ?_, by simp [hle]⟩
+    have : r.hdrLine = (62 :: r.hdr) ++ [13, 10] := by simp [Rec.hdrLine, hle]
+    rw [this]; exact pyGet_neg_two _ _ _
+
+theorem processSeqBuffer_pos (st : IdxState) (p : Int) :
+    processSeqBuffer { st with pos := p } = { processSeqBuffer st with pos := p } := rfl
+
+theorem finish_pos (st : IdxState) (p : Int) :
+    finish { st with pos := p } = (finish st >>= fun s => pure { s with pos := p }) := by
+  unfold finish
+  by_cases hn : st.name.isSome = true
+  · simp only [hn, if_true]
+    rw [storeInfo_eq, storeInfo_eq]
+    simp only [processSeqBuffer_pos]
+    by_cases hd : dHas (processSeqBuffer st).idx ((processSeqBuffer st).name.getD []) = true
+    · simp only [hd, if_true]; rfl
+    · simp only [hd, Bool.false_eq_true, if_false]; rfl
+  · simp only [hn]; rfl
+
+theorem finish_ok_pos {st st2 : IdxState} (h : finish st = .ok st2) : st2.pos = st.pos := by
+  unfold finish at h
+  by_cases hn : st.name.isSome = true
+  · simp only [hn, if_true] at h
+    rw [storeInfo_eq] at h
+    by_cases hd : dHas (processSeqBuffer st).idx ((processSeqBuffer st).name.getD []) = true
+    · simp only [hd, if_true] at h; cases h
+    · simp only [hd, Bool.false_eq_true, if_false] at h
+      cases h; rfl
+  · simp only [hn] at h
+    cases h; rfl
+
+/-- "after `finish` the state describes the finished records `o`" -/
+def Fin (st : IdxState) (o : Out) : Prop := ∃ st2, finish st = .ok st2 ∧ Between st2 o
+
+def Cur.start (o : Out) (r : Rec) : Cur :=
+  { idx := o.idx, scaffolds := o.scaffolds, nextOid := o.nextOid, name := r.name,
+    off := o.pos + (r.hdrLine.length : Nat), rpl := 0, leb := (r.le.length : Nat), res := [],
+    pos := o.pos + (r.hdrLine.length : Nat) }
+
+theorem header_step (bs : Int) {st : IdxState} {o : Out} {r : Rec} (hf : Fin st o) (hwf : r.WF) :
+    ∃ st', indexLine bs st r.hdrLine = .ok st' ∧ InRec st' (Cur.start o r) := by
+  obtain ⟨st2, e2, hb⟩ := hf
+  have hpos : st.pos = o.pos := by rw [← finish_ok_pos e2, hb.pos]
+  obtain ⟨b2, hb2, hleb⟩ := Rec.hdr_b2 hwf
+  have htok := Rec.hdrTok hwf
+  rw [indexLine_header bs st r.hdrLine r.name b2 (pyGet_zero_cons _ _) (by rw [htok]; exact hwf.tok_ne)
+    (by rw [htok]; exact bytesToStr_ascii _ hwf.tok_ascii) hb2, finish_pos, e2, hleb]
+  refine ⟨_, rfl, ?_⟩
+  constructor
+  · rfl
+  · show st.pos + _ = _; rw [hpos]; rfl
+  · rfl
+  · rfl
+  · exact hb.idx
+  · exact hb.scaffolds
+  · exact hb.nextOid
+  · show st.pos + _ = _; rw [hpos]; rfl
+  · show (0 : Int) + (st2.buffer.length : Nat) = _; rw [hb.buffer]; rfl
+  · show (acgtRuns 0 none st2.buffer).foldl _ _ = _; rw [hb.buffer]; rfl
+
+/-! ### one record, many records -/
+
+def Cur.feedAll (c : Cur) (lts : List (Bytes × Bytes)) : Cur :=
+  lts.foldl (fun c lt => c.feed lt.1 (lt.1 ++ lt.2).length) c
+
+theorem Cur.feedAll_spec (lts : List (Bytes × Bytes)) : ∀ (c : Cur),
+    c.feedAll lts =
+      { c with rpl := (lts.map Prod.fst).foldl (fun acc l => if acc = 0 then (l.length : Int) else acc) c.rpl,
+               res := c.res ++ (lts.map Prod.fst).flatten,
+               pos := c.pos + (((lts.map (fun lt => lt.1 ++ lt.2)).flatten.length : Nat) : Int) } := by
+  induction lts with
+  | nil => intro c; simp [Cur.feedAll]
+  | cons lt rest ih =>
+    intro c
+    have := ih (c.feed lt.1 (lt.1 ++ lt.2).length)
+    simp only [Cur.feedAll, List.foldl_cons] at this ⊢
+    rw [this]
+    simp only [Cur.feed, List.map_cons, List.foldl_cons, List.flatten_cons, List.append_assoc, List.length_append,
+      Cur.mk.injEq, true_and]
+    simp only [Int.natCast_add]; omega
+
+theorem rec_core (bs : Int) {st : IdxState} {o : Out} {r : Rec} (lts : List (Bytes × Bytes))
+    (hf : Fin st o) (hwf : r.WF) (hl : ∀ lt ∈ lts, ResLine (r.le.length : Nat) lt.1 lt.2) :
+    ∃ st1, (r.hdrLine :: lts.map (fun lt => lt.1 ++ lt.2)).foldlM (indexLine bs) st = .ok st1 ∧
+      InRec st1 ((Cur.start o r).feedAll lts) := by
+  obtain ⟨st', e', h'⟩ := header_step bs hf hwf
+  obtain ⟨st1, e1, h1⟩ := residue_fold bs lts h' hl
+  refine ⟨st1, ?_, h1⟩
+  simp only [List.foldlM_cons, e']
+  exact e1
+
+theorem dHas_iff {ν} (d : List (Str × ν)) (k : Str) : dHas d k = true ↔ k ∈ d.map Prod.fst := by
+  induction d with
+  | nil => simp [dHas, dGet?]
+  | cons kv rest ih =>
+    obtain ⟨k', v⟩ := kv
+    by_cases hk : k' = k
+    · simp [dHas, dGet?, hk]
+    · have hk' : ¬ k = k' := fun h => hk h.symm
+      simp only [dHas, dGet?, hk, if_false, List.map_cons, List.mem_cons, hk', false_or] at ih ⊢
+      exact ih
+
+def Rec.info (r : Rec) (start : Int) : FastaInfo :=
+  { length := (r.res.length : Nat), fileOffset := start + (r.hdrLine.length : Nat), rpl := r.rpl,
+    mll := r.rpl + (r.le.length : Nat) }
+
+/-- what indexing one more record adds to the result; `o.pos` is the byte offset at which the record starts. -/
+def addRec (o : Out) (r : Rec) : Out :=
+  { idx := o.idx ++ [(r.name, r.info o.pos)],
+    scaffolds := o.scaffolds ++ [{ name := r.name, rows := specRows r.name o.nextOid r.res }],
+    pos := o.pos + (r.bytes.length : Nat),
+    nextOid := o.nextOid + (runsOf r.res).length }
+
+def closedLts (r : Rec) : List (Bytes × Bytes) := r.lines.map (fun l => (l, r.le))
+
+theorem closedLts_lines (r : Rec) : (closedLts r).map (fun lt => lt.1 ++ lt.2) = r.lines.map (· ++ r.le) := by
+  simp [closedLts]
+
+theorem closedLts_fst (r : Rec) : (closedLts r).map Prod.fst = r.lines := by
+  simp only [closedLts, List.map_map]
+  exact List.map_id' _
+
+theorem Rec.WF.resLine {r : Rec} (h : r.WF) : ∀ lt ∈ closedLts r, ResLine (r.le.length : Nat) lt.1 lt.2 := by
+  intro lt hm
+  simp only [closedLts, List.mem_map] at hm
+  obtain ⟨l, hl, rfl⟩ := hm
+  obtain ⟨h1, h2⟩ := h.lines l hl
+  refine ⟨h1, h2, ?_⟩
+  rcases h.le with ⟨hle, _⟩ | hle
+  · left; simp [hle]
+  · right; left; simp [hle]
+
+theorem store_closed (o : Out) (r : Rec) : ((Cur.start o r).feedAll (closedLts r)).store = addRec o r := by
+  rw [Cur.feedAll_spec, closedLts_fst, closedLts_lines]
+  simp only [Cur.store, Cur.start, addRec, Cur.info, Rec.info, Rec.res, Rec.rpl, Rec.rplOf, List.nil_append,
+    Rec.bytes, Rec.fileLines, List.flatten_cons, List.length_append, Out.mk.injEq, true_and]
+  refine ⟨?_, trivial⟩
+  omega
+
+theorem fin_of_inRec {st : IdxState} {c : Cur} (h : InRec st c) (hd : c.name ∉ c.idx.map Prod.fst) :
+    Fin st c.store := by
+  have hd' : dHas c.idx c.name = false := by
+    cases hh : dHas c.idx c.name with
+    | false => rfl
+    | true => exact absurd ((dHas_iff _ _).mp hh) hd
+  obtain ⟨st2, e2, hb⟩ := storeInfo_ok h hd'
+  refine ⟨st2, ?_, hb⟩
+  simp only [finish, h.name, Option.isSome_some, if_true, e2]
+
+theorem finErr_of_inRec {st : IdxState} {c : Cur} (h : InRec st c) (hd : c.name ∈ c.idx.map Prod.fst) :
+    finish st = .error .value := by
+  simp only [finish, h.name, Option.isSome_some, if_true]
+  exact storeInfo_dup h ((dHas_iff _ _).mpr hd)
+
+theorem addRec_keys (o : Out) (r : Rec) : (addRec o r).idx.map Prod.fst = o.idx.map Prod.fst ++ [r.name] := by
+  simp [addRec]
+
+theorem foldl_addRec_keys (recs : List Rec) : ∀ (o : Out),
+    (recs.foldl addRec o).idx.map Prod.fst = o.idx.map Prod.fst ++ recs.map Rec.name := by
+  induction recs with
+  | nil => intro o; simp
+  | cons r rest ih => intro o; simp [List.foldl_cons, ih, addRec_keys]
+
+theorem rec_step (bs : Int) {st : IdxState} {o : Out} {r : Rec} (hf : Fin st o) (hwf : r.WF)
+    (hn : r.name ∉ o.idx.map Prod.fst) :
+    ∃ st1, r.fileLines.foldlM (indexLine bs) st = .ok st1 ∧ Fin st1 (addRec o r) := by
+  obtain ⟨st1, e1, h1⟩ := rec_core bs (closedLts r) hf hwf hwf.resLine
+  rw [closedLts_lines] at e1
+  refine ⟨st1, e1, ?_⟩
+  rw [← store_closed]
+  apply fin_of_inRec h1
+  rw [Cur.feedAll_spec]; exact hn
+
+theorem chain (bs : Int) (recs : List Rec) : ∀ {st : IdxState} {o : Out}, Fin st o → (∀ r ∈ recs, r.WF) →
+    (o.idx.map Prod.fst ++ recs.map Rec.name).Nodup →
+    ∃ st1, (recs.flatMap Rec.fileLines).foldlM (indexLine bs) st = .ok st1 ∧ Fin st1 (recs.foldl addRec o) := by
+  induction recs with
+  | nil => intro st o hf _ _; exact ⟨st, rfl, hf⟩
+  | cons r rest ih =>
+    intro st o hf hwf hnd
+    have hn : r.name ∉ o.idx.map Prod.fst := by
+      intro hm
+      rw [List.nodup_append] at hnd
+      exact hnd.2.2 _ hm _ (by simp) rfl
+    obtain ⟨st1, e1, h1⟩ := rec_step bs hf (hwf r (by simp)) hn
+    have hnd' : ((addRec o r).idx.map Prod.fst ++ rest.map Rec.name).Nodup := by
+      rw [addRec_keys]; simpa using hnd
+    obtain ⟨st2, e2, h2⟩ := ih h1 (fun r' hm => hwf r' (by simp [hm])) hnd'
+    refine ⟨st2, ?_, h2⟩
+    simp only [List.flatMap_cons, List.foldlM_append, e1]
+    exact e2
+
+/-! ### whole files -/
+
+theorem fin_init : Fin {} {} := ⟨{}, rfl, ⟨rfl, rfl, rfl, rfl, rfl⟩⟩
+
+theorem indexFasta_eq (lines : List Bytes) (bs : Int) :
+    indexFasta lines bs = ((lines.foldlM (indexLine bs) {} >>= finish) >>= fun st =>
+      if st.idx.isEmpty then .error .value else .ok st) := by
+  unfold indexFasta finish
+  cases lines.foldlM (indexLine bs) {} with
+  | error e => rfl
+  | ok st =>
+    cases hn : st.name.isSome <;>
+      simp only [bind, Except.bind, pure, Except.pure, hn, if_true, Bool.false_eq_true, if_false] <;> rfl
+
+theorem indexFasta_of_fin (bs : Int) {lines : List Bytes} {st1 : IdxState} {o : Out}
+    (h1 : lines.foldlM (indexLine bs) {} = .ok st1) (hf : Fin st1 o) (hne : o.idx ≠ []) :
+    ∃ st, indexFasta lines bs = .ok st ∧ st.idx = o.idx ∧ st.scaffolds = o.scaffolds := by
+  obtain ⟨st2, e2, hb⟩ := hf
+  refine ⟨st2, ?_, hb.idx, hb.scaffolds⟩
+  have hne' : st2.idx.isEmpty = false := by
+    rw [hb.idx]; cases h : o.idx with
+    | nil => exact absurd h hne
+    | cons _ _ => rfl
+  rw [indexFasta_eq, h1]
+  show (finish st1 >>= _) = _
+  rw [e2]
+  show (if st2.idx.isEmpty then _ else _) = _
+  rw [hne']; rfl
+
+theorem indexFasta_of_finErr (bs : Int) {lines : List Bytes} {st1 : IdxState} {e : Err}
+    (h1 : lines.foldlM (indexLine bs) {} = .ok st1) (hf : finish st1 = .error e) :
+    indexFasta lines bs = .error e := by
+  rw [indexFasta_eq, h1]
+  show (finish st1 >>= _) = _
+  rw [hf]; rfl
+
+theorem indexFasta_of_foldErr (bs : Int) {lines : List Bytes} {e : Err}
+    (h1 : lines.foldlM (indexLine bs) {} = .error e) : indexFasta lines bs = .error e := by
+  rw [indexFasta_eq, h1]; rfl
+
+theorem foldl_addRec_idx_ne (recs : List Rec) (hne : recs ≠ []) (o : Out) : (recs.foldl addRec o).idx ≠ [] := by
+  intro h
+  have := foldl_addRec_keys recs o
+  rw [h] at this
+  cases recs with
+  | nil => exact hne rfl
+  | cons r rest => simp at this
+
+theorem Rec.WF.isLine {r : Rec} (h : r.WF) : ∀ l ∈ r.fileLines, IsLine l := by
+  intro l hm
+  simp only [Rec.fileLines, List.mem_cons, List.mem_map] at hm
+  rcases hm with rfl | ⟨l', hl', rfl⟩
+  · rcases h.le with ⟨hle, _⟩ | hle
+    · refine ⟨62 :: r.hdr, by simp [Rec.hdrLine, hle], ?_⟩
+      simp only [List.mem_cons, not_or]; exact ⟨by decide, h.hdr10⟩
+    · refine ⟨62 :: r.hdr ++ [13], by simp [Rec.hdrLine, hle], ?_⟩
+      simp only [List.cons_append, List.mem_cons, List.mem_append, List.not_mem_nil, or_false, not_or]
+      exact ⟨by decide, h.hdr10, by decide⟩
+  · have h10 := (h.lines l' hl').1
+    rcases h.le with ⟨hle, _⟩ | hle
+    · exact ⟨l', by simp [hle], h10⟩
+    · refine ⟨l' ++ [13], by simp [hle], ?_⟩
+      simp only [List.mem_append, List.mem_cons, List.not_mem_nil, or_false, not_or]
+      exact ⟨h10, by decide⟩
+
+theorem flatMap_isLine {recs : List Rec} (h : ∀ r ∈ recs, r.WF) : ∀ l ∈ recs.flatMap Rec.fileLines, IsLine l := by
+  intro l hm
+  rw [List.mem_flatMap] at hm
+  obtain ⟨r, hr, hl⟩ := hm
+  exact (h r hr).isLine l hl
+
+/-- the file made of complete records -/
+def fileOf (recs : List Rec) : Bytes := (recs.map Rec.bytes).flatten
+
+theorem fileOf_lines (recs : List Rec) : fileOf recs = (recs.flatMap Rec.fileLines).flatten := by
+  induction recs with
+  | nil => rfl
+  | cons r rest ih =>
+    simp only [fileOf, List.map_cons, List.flatten_cons, List.flatMap_cons, List.flatten_append] at ih ⊢
+    rw [ih]; rfl
+
+theorem bLines_fileOf {recs : List Rec} (h : ∀ r ∈ recs, r.WF) : bLines (fileOf recs) = recs.flatMap Rec.fileLines := by
+  have := bLines_flatten_append (recs.flatMap Rec.fileLines) [] (flatMap_isLine h)
+  rw [fileOf_lines]
+  simpa [bLines] using this
+
+/-- **the line loop, complete files** (every line terminated) -/
+theorem indexFasta_fileOf (bs : Int) (recs : List Rec) (hne : recs ≠ []) (hwf : ∀ r ∈ recs, r.WF)
+    (hnd : (recs.map Rec.name).Nodup) :
+    ∃ st, indexFasta (bLines (fileOf recs)) bs = .ok st ∧
+      st.idx = (recs.foldl addRec {}).idx ∧ st.scaffolds = (recs.foldl addRec {}).scaffolds := by
+  rw [bLines_fileOf hwf]
+  obtain ⟨st1, e1, h1⟩ := chain bs recs fin_init hwf (by simpa using hnd)
+  exact indexFasta_of_fin bs e1 h1 (foldl_addRec_idx_ne recs hne _)
+
+/-! ### final line terminator missing -/
+
+def openLts (r : Rec) (ls : List Bytes) (l : Bytes) : List (Bytes × Bytes) := ls.map (fun x => (x, r.le)) ++ [(l, [])]
+
+/-- lines of the last record when its last residue line `l` has no terminator -/
+def Rec.openLines (r : Rec) (ls : List Bytes) (l : Bytes) : List Bytes := (r.hdrLine :: ls.map (· ++ r.le)) ++ [l]
+
+/-- the file `init ++ [last]` with the very last line terminator missing (`last.lines = ls ++ [l]`) -/
+def fileOpen (init : List Rec) (last : Rec) (ls : List Bytes) (l : Bytes) : Bytes :=
+  fileOf init ++ (last.openLines ls l).flatten
+
+theorem fileOpen_append_le (init : List Rec) (last : Rec) (ls : List Bytes) (l : Bytes) (h : last.lines = ls ++ [l]) :
+    fileOpen init last ls l ++ last.le = fileOf (init ++ [last]) := by
+  simp [fileOpen, fileOf, Rec.openLines, Rec.bytes, Rec.fileLines, h]
+
+theorem openLts_lines (r : Rec) (ls : List Bytes) (l : Bytes) :
+    r.hdrLine :: (openLts r ls l).map (fun lt => lt.1 ++ lt.2) = r.openLines ls l := by
+  simp [openLts, Rec.openLines]
+
+theorem openLts_fst (r : Rec) (ls : List Bytes) (l : Bytes) : (openLts r ls l).map Prod.fst = ls ++ [l] := by
+  simp only [openLts, List.map_append, List.map_map, List.map_cons, List.map_nil]
+  congr 1
+  exact List.map_id' _
+
+theorem openLts_resLine {r : Rec} {ls : List Bytes} {l : Bytes} (h : r.WF) (hl : r.lines = ls ++ [l]) (hne : l ≠ []) :
+    ∀ lt ∈ openLts r ls l, ResLine (r.le.length : Nat) lt.1 lt.2 := by
+  intro lt hm
+  simp only [openLts, List.mem_append, List.mem_map, List.mem_cons, List.not_mem_nil, or_false] at hm
+  rcases hm with ⟨x, hx, rfl⟩ | rfl
+  · exact h.resLine (x, r.le) (by simp only [closedLts, List.mem_map]; exact ⟨x, by simp [hl, hx], rfl⟩)
+  · obtain ⟨h1, h2⟩ := h.lines l (by simp [hl])
+    exact ⟨h1, h2, Or.inr (Or.inr ⟨rfl, hne⟩)⟩
+
+theorem store_open_idx (o : Out) (r : Rec) (ls : List Bytes) (l : Bytes) (hl : r.lines = ls ++ [l]) :
+    ((Cur.start o r).feedAll (openLts r ls l)).store.idx = (addRec o r).idx ∧
+    ((Cur.start o r).feedAll (openLts r ls l)).store.scaffolds = (addRec o r).scaffolds := by
+  rw [Cur.feedAll_spec, openLts_fst, ← hl]
+  simp only [Cur.store, Cur.start, addRec, Cur.info, Rec.info, Rec.res, Rec.rpl, Rec.rplOf, List.nil_append]
+  exact ⟨trivial, trivial⟩
+
+theorem bLines_fileOpen {init : List Rec} {last : Rec} {ls : List Bytes} {l : Bytes}
+    (hwf : ∀ r ∈ init, r.WF) (hlast : last.WF) (hl : last.lines = ls ++ [l]) (hne : l ≠ []) :
+    bLines (fileOpen init last ls l) = init.flatMap Rec.fileLines ++ last.openLines ls l := by
+  have hlines : ∀ x ∈ init.flatMap Rec.fileLines ++ (last.hdrLine :: ls.map (· ++ last.le)), IsLine x := by
+    intro x hx
+    rcases List.mem_append.mp hx with hx | hx
+    · exact flatMap_isLine hwf x hx
+    · apply hlast.isLine x
+      simp only [Rec.fileLines, hl, List.map_append, List.mem_cons, List.mem_append] at hx ⊢
+      rcases hx with hx | hx
+      · exact Or.inl hx
+      · exact Or.inr (Or.inl hx)
+  have h10 : 10 ∉ l := (hlast.lines l (by simp [hl])).1
+  have := bLines_flatten_append _ l hlines
+  rw [bLines_open l hne h10] at this
+  rw [fileOpen, fileOf_lines, Rec.openLines]
+  simp only [List.flatten_append, List.flatten_cons, List.flatten_nil, List.append_nil, List.append_assoc] at this ⊢
+  exact this
+
+/-- **the line loop, final terminator missing** -/
+theorem indexFasta_fileOpen (bs : Int) (init : List Rec) (last : Rec) (ls : List Bytes) (l : Bytes)
+    (hwf : ∀ r ∈ init ++ [last], r.WF) (hnd : ((init ++ [last]).map Rec.name).Nodup)
+    (hl : last.lines = ls ++ [l]) (hne : l ≠ []) :
+    ∃ st, indexFasta (bLines (fileOpen init last ls l)) bs = .ok st ∧
+      st.idx = ((init ++ [last]).foldl addRec {}).idx ∧ st.scaffolds = ((init ++ [last]).foldl addRec {}).scaffolds := by
+  have hwfi : ∀ r ∈ init, r.WF := fun r hr => hwf r (by simp [hr])
+  have hlast : last.WF := hwf last (by simp)
+  rw [bLines_fileOpen hwfi hlast hl hne]
+  have hndi : (({} : Out).idx.map Prod.fst ++ init.map Rec.name).Nodup := by
+    simp only [List.map_append, List.map_cons, List.map_nil] at hnd
+    simpa using (List.nodup_append.mp hnd).1
+  obtain ⟨st1, e1, h1⟩ := chain bs init fin_init hwfi hndi
+  obtain ⟨st2, e2, h2⟩ := rec_core bs (openLts last ls l) h1 hlast (openLts_resLine hlast hl hne)
+  rw [openLts_lines] at e2
+  have hnm : last.name ∉ (init.foldl addRec {}).idx.map Prod.fst := by
+    rw [foldl_addRec_keys]
+    simp only [List.map_append, List.map_cons, List.map_nil] at hnd
+    intro hm
+    exact (List.nodup_append.mp hnd).2.2 _ (by simpa using hm) _ (by simp) rfl
+  have hfin : Fin st2 ((Cur.start (init.foldl addRec {}) last).feedAll (openLts last ls l)).store := by
+    apply fin_of_inRec h2
+    rw [Cur.feedAll_spec]; exact hnm
+  obtain ⟨hi, hs⟩ := store_open_idx (init.foldl addRec {}) last ls l hl
+  have hfold : (init ++ [last]).foldl addRec {} = addRec (init.foldl addRec {}) last := by
+    simp [List.foldl_append]
+  have e12 : (init.flatMap Rec.fileLines ++ last.openLines ls l).foldlM (indexLine bs) {} = .ok st2 := by
+    simp only [List.foldlM_append, e1]; exact e2
+  obtain ⟨st, e, i1, i2⟩ := indexFasta_of_fin bs e12 hfin (by rw [hi]; simp [addRec])
+  exact ⟨st, e, by rw [i1, hi, hfold], by rw [i2, hs, hfold]⟩
+
+/-! ### duplicate names -/
+
+theorem exists_first_dup_aux {α β} (f : α → β) (l : List α) : ∀ (acc : List α), (acc.map f).Nodup →
+    ¬ ((acc ++ l).map f).Nodup →
+    ∃ pre d post, acc ++ l = pre ++ d :: post ∧ (pre.map f).Nodup ∧ f d ∈ pre.map f := by
+  induction l with
+  | nil => intro acc h1 h2; simp only [List.append_nil] at h2; exact absurd h1 h2
+  | cons x xs ih =>
+    intro acc h1 h2
+    by_cases hx : f x ∈ acc.map f
+    · exact ⟨acc, x, xs, rfl, h1, hx⟩
+    · have h1' : ((acc ++ [x]).map f).Nodup := by
+        simp only [List.map_append, List.map_cons, List.map_nil]
+        rw [List.nodup_append]
+        refine ⟨h1, by simp, ?_⟩
+        intro a ha b hb hab
+        simp only [List.mem_cons, List.not_mem_nil, or_false] at hb
+        subst hb; subst hab; exact hx ha
+      have := ih (acc ++ [x]) h1' (by simpa using h2)
+      simpa using this
+
+theorem exists_first_dup {α β} (f : α → β) (l : List α) (h : ¬ (l.map f).Nodup) :
+    ∃ pre d post, l = pre ++ d :: post ∧ (pre.map f).Nodup ∧ f d ∈ pre.map f := by
+  have := exists_first_dup_aux f l [] (by simp) (by simpa using h)
+  simpa using this
+
+theorem indexLine_header_finErr (bs : Int) {st : IdxState} {r : Rec} {e : Err} (hwf : r.WF)
+    (hf : finish st = .error e) : indexLine bs st r.hdrLine = .error e := by
+  obtain ⟨b2, hb2, _⟩ := Rec.hdr_b2 hwf
+  have htok := Rec.hdrTok hwf
+  rw [indexLine_header bs st r.hdrLine r.name b2 (pyGet_zero_cons _ _) (by rw [htok]; exact hwf.tok_ne)
+    (by rw [htok]; exact bytesToStr_ascii _ hwf.tok_ascii) hb2, finish_pos, hf]
+  rfl
+
+/-- **duplicate record names are rejected with `ValueError`** (at the first repeated name) -/
+theorem indexFasta_dup_at (bs : Int) (pre : List Rec) (d : Rec) (post : List Rec)
+    (hwf : ∀ r ∈ pre ++ d :: post, r.WF) (hnd : (pre.map Rec.name).Nodup) (hd : d.name ∈ pre.map Rec.name) :
+    indexFasta (bLines (fileOf (pre ++ d :: post))) bs = .error .value := by
+  rw [bLines_fileOf hwf]
+  have hwfp : ∀ r ∈ pre, r.WF := fun r hr => hwf r (by simp [hr])
+  have hwfd : d.WF := hwf d (by simp)
+  obtain ⟨st1, e1, h1⟩ := chain bs pre fin_init hwfp (by simpa using hnd)
+  obtain ⟨st2, e2, h2⟩ := rec_core bs (closedLts d) h1 hwfd hwfd.resLine
+  rw [closedLts_lines] at e2
+  have herr : finish st2 = .error .value := by
+    apply finErr_of_inRec h2
+    rw [Cur.feedAll_spec]
+    show d.name ∈ (pre.foldl addRec {}).idx.map Prod.fst
+    rw [foldl_addRec_keys]; simpa using hd
+  have e12 : (pre.flatMap Rec.fileLines ++ d.fileLines).foldlM (indexLine bs) {} = .ok st2 := by
+    simp only [List.foldlM_append, e1]; exact e2
+  cases post with
+  | nil =>
+    apply indexFasta_of_finErr bs _ herr
+    simpa using e12
+  | cons p ps =>
+    apply indexFasta_of_foldErr
+    have hwfq : p.WF := hwf p (by simp)
+    have : (pre ++ d :: p :: ps).flatMap Rec.fileLines =
+        (pre.flatMap Rec.fileLines ++ d.fileLines) ++ (p.hdrLine :: (p.lines.map (· ++ p.le) ++ ps.flatMap Rec.fileLines)) := by
+      simp [Rec.fileLines]
+    rw [this, List.foldlM_append, e12]
+    show List.foldlM (indexLine bs) st2 (p.hdrLine :: _) = _
+    rw [List.foldlM_cons, indexLine_header_finErr bs hwfq herr]
+    rfl
+
+theorem indexFasta_dup (bs : Int) (recs : List Rec) (hwf : ∀ r ∈ recs, r.WF) (hnd : ¬ (recs.map Rec.name).Nodup) :
+    indexFasta (bLines (fileOf recs)) bs = .error .value := by
+  obtain ⟨pre, d, post, rfl, h1, h2⟩ := exists_first_dup Rec.name recs hnd
+  exact indexFasta_dup_at bs pre d post hwf h1 h2
+
+/-! ### uniform line width -/
+
+/-- residue lines of uniform width `w`: all lines but the last have exactly `w` residues, the last has `1 … w`
+    (no residue lines at all is allowed: an empty record). -/
+def Uniform (w : Nat) (lines : List Bytes) : Prop :=
+  lines = [] ∨ ∃ full last, lines = full ++ [last] ∧ (∀ l ∈ full, l.length = w) ∧ 0 < last.length ∧ last.length ≤ w
+
+theorem rplOf_foldl_ne_zero (lines : List Bytes) : ∀ (acc : Int), acc ≠ 0 →
+    lines.foldl (fun acc l => if acc = 0 then (l.length : Int) else acc) acc = acc := by
+  induction lines with
+  | nil => intro acc _; rfl
+  | cons l ls ih => intro acc h; simp only [List.foldl_cons, h, if_false]; exact ih acc h
+
+theorem rplOf_cons (l : Bytes) (ls : List Bytes) (h : l ≠ []) : Rec.rplOf (l :: ls) = (l.length : Nat) := by
+  have : ((l.length : Nat) : Int) ≠ 0 := by
+    cases l with
+    | nil => exact absurd rfl h
+    | cons _ _ => simp only [List.length_cons]; omega
+  simp only [Rec.rplOf, List.foldl_cons, if_true]
+  exact rplOf_foldl_ne_zero ls _ this
+
+/-- with uniform width `w` the indexed `residues_per_line` is `min w n` -/
+theorem rplOf_uniform (w : Nat) (lines : List Bytes) (h : Uniform w lines) :
+    Rec.rplOf lines = ((min w lines.flatten.length : Nat) : Int) := by
+  rcases h with rfl | ⟨full, last, rfl, hfull, h0, hw⟩
+  · simp [Rec.rplOf]
+  · have hlast : last ≠ [] := by intro h; rw [h] at h0; simp at h0
+    cases full with
+    | nil =>
+      rw [List.nil_append, rplOf_cons _ _ hlast]
+      simp only [List.flatten_cons, List.flatten_nil, List.append_nil]
+      congr 1; omega
+    | cons f fs =>
+      have hf : f.length = w := hfull f (by simp)
+      have hfne : f ≠ [] := by intro h; rw [h] at hf; simp at hf; omega
+      rw [List.cons_append, rplOf_cons _ _ hfne]
+      simp only [List.flatten_cons, List.length_append]
+      congr 1; omega
 
 end AgpTpf.C04
